@@ -103,8 +103,8 @@ def exportable_member(rng, depth, bit=False):
             return A.Array(rng.choice([2, 3, 8]), rng.choice([A.Flag, A.BitsInteger(rng.choice([1, 3, 4]))]))
         return A.BitsInteger(rng.choice([1, 2, 3, 5, 7, 8, 12]))
     r = rng.randrange(30)
-    if r < 6: return A.Alias(rng.choice(["Byte", "Int16ub", "Int16ul", "Int32sb", "Int32ul", "Int8sb", "Int64ub", "Int24ub", "Int24sl"]))
-    if r == 6: return A.Alias(rng.choice(["Float32b", "Float64l", "Float32l"]))
+    if r < 6: return A.Alias(rng.choice(["Byte", "Int16ub", "Int16ul", "Int32sb", "Int32ul", "Int8sb", "Int64ub", "Int24ub", "Int24sl", "Int16un", "Int32sn", "Int64un", "Int24un"]))
+    if r == 6: return A.Alias(rng.choice(["Float32b", "Float64l", "Float32l", "Float64b", "Float32n", "Float64n", "Single", "Double"]))
     if r == 7: return A.Bytes(rng.choice([0, 1, 3]))
     if r == 8: return A.Flag
     if r == 9: return A.VarInt
